@@ -127,3 +127,44 @@ Proof.
   cbn [run_ready op_ready]. split; [exact I|]. split; [|exact I].
   intros sel0 H. vm_compute in H. injection H as <-. vm_compute. reflexivity.
 Qed.
+
+(* ---------- the counters after the failed fsync (C19 under this fault) ----------
+   With the repaired bookkeeping the per-file counters remain EXACT with respect to the index: the record whose fsync
+   failed is an entry of its file that no index entry points at, and it is booked as exactly that — one dead entry of
+   its size.  (The index itself no longer equals "the latest record of every key in the log": that is the one clause of
+   [cons] a record unknown to the index breaks, and the reason the running process does not see it.) *)
+Lemma unindexed_not_live L i x a p e : Log.cons L i x -> wfL (L ++ [(a, p, e)]) -> is_live i (a, p, e) = false.
+Proof.
+  intros (C1 & _) Hw. cbn [is_live]. destruct (iget i (e_key e)) as [l|] eqn:E; [|reflexivity]. rewrite C1 in E.
+  pose proof (lastloc_lastval (e_key e) L None None ltac:(reflexivity)) as H. rewrite E in H.
+  destruct H as [[E0 _]|(f & p' & e' & Hin & -> & _)]; [discriminate|]. cbn [loc_of l_fid l_pos].
+  destruct (wfL_app_one L a p e Hw) as [_ Hno].
+  destruct (N.eqb_spec f a) as [->|]; [|reflexivity]. destruct (N.eqb_spec p' p) as [->|]; [|reflexivity]. exfalso.
+  assert (Ht : existsb (at_pos a p) L = true).
+  { apply existsb_exists. exists (a, p, e'). split; [exact Hin|]. cbn [at_pos]. rewrite !N.eqb_refl. reflexivity. }
+  congruence.
+Qed.
+
+Theorem failed_fsync_counters_exact s k v s' t : Inv s -> failed_fsync true s k v = ROk (s', t) ->
+  forall g, live (sget0 (s_stats s') g) = nlive (slog s') (s_idx s') g /\
+            dead (sget0 (s_stats s') g) = ndead (slog s') (s_idx s') g /\
+            dead_bytes (sget0 (s_stats s') g) = bdead (slog s') (s_idx s') g.
+Proof.
+  intros HI Hf g. destruct (failed_fsync_shape true s k v HI) as (s1 & fa & Hf1 & _ & Hlog & Hs' & _ & _ & Hidx & Hx). cbv zeta in Hlog.
+  rewrite Hf1 in Hf. injection Hf as <- _.
+  pose proof HI as (_ & _ & _ & _ & _ & _ & HC). pose proof HC as (_ & C2 & _).
+  assert (Hw : wfL (slog s ++ [(s_active s, data_size (d_data fa), mkEntry (s_clock s) k v)])).
+  { rewrite <- Hlog. apply wfL_log_of_dir. exact Hs'. }
+  pose proof (unindexed_not_live _ _ _ _ _ _ HC Hw) as Hnl.
+  rewrite Hlog, Hidx, Hx, nlive_app, ndead_app, bdead_app. cbn [nlive ndead bdead in_file esize]. rewrite Hnl, sget0_aset.
+  destruct (C2 g eq_refl) as (Lg & Dg & Bg). fold (slog s) in Lg, Dg, Bg.
+  rewrite (N.eqb_sym g). destruct (N.eqb_spec (s_active s) g) as [->|Hne]; cbn [andb negb add_dead live dead dead_bytes]; repeat split; lia.
+Qed.
+
+(* ... and with the pinned bookkeeping they are not: the record is in the file and in no counter *)
+Example pinned_counters_miss_the_record :
+  match failed_fsync false ff_before [107] (Some [118]) with
+  | ROk (s', _) => ndead (slog s') (s_idx s') (s_active s') = 1 /\ dead (sget0 (s_stats s') (s_active s')) = 0
+  | _ => False
+  end.
+Proof. vm_compute. split; reflexivity. Qed.
